@@ -128,6 +128,8 @@ def program(case):
     if lk == 'value':
         return plit(left) + vtext + sym + plit(a)
     if lk == 'count':
+        if isinstance(left, tuple):     # ('computed', n): the count is the result of an operation (a NumPy integer), not a literal
+            return '(%d+0)' % left[1] + vtext + sym + plit(a)
         return '(%d)' % left + vtext + sym + plit(a)
     return left + vtext + sym + plit(a)
 
@@ -135,7 +137,8 @@ def program(case):
 def case_json(case):
     form, vtext, left, a = case
     return {'form': list(form) if isinstance(form, tuple) else form, 'verb': vtext,
-            'left': left if isinstance(left, (int, str)) or left is None else ['canon', lit(left)],
+            'left': left if isinstance(left, (int, str)) or left is None else
+                    (list(left) if left and left[0] == 'computed' else ['canon', lit(left)]),
             'operand': lit(a), 'text': program(case)}
 
 
@@ -271,18 +274,28 @@ def _opaque(c):
 # ---------------------------------------------------------------------------------------------
 # evaluation of the adverb program by an unmodified interpreter
 
+_TIMEOUTS = 0                   # watchdog hits of this worker process
+TIMEOUT_CAP = 12                # afterwards the remaining programs of the worker are not started (counted, never silent)
+
+
 def evaluate(text, pynames=(), compiler=True):
-    """compiler=False is used only to label a violation (does it disappear without the expression compiler?)."""
+    """compiler=False is used only to label a violation (does it disappear without the expression compiler?).
+    A tree on which a whole class of programs does not terminate would cost 10 s per program: after 3 hits the limit
+    drops to 2 s of CPU time, after TIMEOUT_CAP hits the worker stops starting programs (('exc', 'NOT-RUN'))."""
+    global _TIMEOUTS
+    if _TIMEOUTS >= TIMEOUT_CAP:
+        return ('exc', 'NOT-RUN')
     try:
         kl = KlongInterpreter()
         if not compiler:
             kl._c02_twin = True         # honoured by the compile_expr wrapper installed by Plain()
         for n in pynames:
             kl[n] = PYFNS[n]
-        with runner.watchdog(10):
+        with runner.watchdog(10 if _TIMEOUTS < 3 else 2):
             r = kl(text)
         return ('ok', cn(r))
     except runner.CaseTimeout:
+        _TIMEOUTS += 1
         return ('exc', 'TIMEOUT')
     except RecursionError:
         return ('exc', 'RecursionError')
@@ -298,6 +311,8 @@ def expected_of(plain, case, vmap):
     v = vmap[(vtext, FORMS[form][1])]
     if FORMS[form][2] == 'predicate':
         left = vmap[(left, 1)]
+    if FORMS[form][2] == 'count' and isinstance(left, tuple):
+        left = left[1]
     return model.expand(form, plain.ap, plain.match, v, a, left)
 
 
@@ -331,6 +346,9 @@ def check_case(plain, case, vmap, out):
     text = program(case)
     pynames = tuple(n for n in (vtext,) if n in PYFNS)
     got = evaluate(text, pynames)
+    if got == ('exc', 'NOT-RUN'):
+        out['not_run_after_timeout_cap'] = out.get('not_run_after_timeout_cap', 0) + 1
+        return None
     out['programs'] += 1
     by = out['per_form'].setdefault(fname, 0)
     out['per_form'][fname] = by + 1
@@ -411,7 +429,7 @@ def classify(case, vmap, exp, got):
     first = forms[0]
     verb = vmap[(vtext, FORMS[first][1])]
     exc = got[1] if got[0] == 'exc' else None
-    texty = _has(a, 'sc') or _has(left if isinstance(left, tuple) else None, 'sc')
+    texty = _has(a, 'sc') or _has(left if isinstance(left, tuple) and left[0] != 'computed' else None, 'sc')
     atom = a[0] not in 'ls'
     if exc == 'TIMEOUT':
         return 'does-not-terminate'
@@ -473,6 +491,7 @@ def enumerate_cases(quick):
                 cases += [(form, v.text, l, a) for l in lefts for a in rights]
             elif lk == 'count':
                 cases += [(form, v.text, n, a) for n in counts for a in rights]
+                cases += [(form, v.text, ('computed', n), a) for n in (0, 2) for a in rights]
             else:
                 cases += [(form, v.text, p.text, a) for p in pr for a in rights]
     # chains f A1 A2 a
@@ -542,7 +561,8 @@ def run(cfg):
         'transitions': programs + total.get('plain_evals', 0),
         'traces_validated_against_impl': programs,
         'samples': [program(c) for c in cases[:: max(1, len(cases) // 10)]][:12],
-        'exhaustive': True,
+        'exhaustive': total.get('not_run_after_timeout_cap', 0) == 0,
+        'programs_not_run_after_timeout_cap': total.get('not_run_after_timeout_cap', 0),
         'distinct_outcomes': len(total.get('outcomes', ())),
         'cases_enumerated': len(cases),
         'programs_executed_and_judged': programs,
@@ -558,7 +578,7 @@ def run(cfg):
         'oracle_selfcheck': check,
         'rule': '16 adverb forms x closed verb set (dyadic verbs for each-2/each-left/each-right/each-pair/over/scan-over and '
                 'their neutral forms, monadic verbs for each/each-index/iterate/converge/while and their scanning forms) x '
-                'right operands (x left operands / counts 0..3 / predicates), plus all chains f A1 A2 a with A1 in the 7 forms '
+                'right operands (x left operands / counts 0..3 as literals and 0, 2 as computed values / predicates), plus all chains f A1 A2 a with A1 in the 7 forms '
                 'that give a monad and A2 in each/each-index/converge/scan-converging (operand as literal and, for a few '
                 'operands, through a variable `A::a;f A1 A2 A`); states = distinct (form, outcome) '
                 'pairs; transitions = adverb programs executed + plain applications executed for the expansions; a case is '
@@ -607,7 +627,9 @@ def replay(cfg, path):
     kl = KlongInterpreter()
     form = tuple(c['form']) if isinstance(c['form'], list) else c['form']
     left = c['left']
-    if isinstance(left, list):
+    if isinstance(left, list) and left[0] == 'computed':
+        left = ('computed', left[1])
+    elif isinstance(left, list):
         left = cn(kl('(' + left[1] + ')'))
     a = cn(kl('(' + c['operand'] + ')'))
     plain = Plain()
